@@ -51,6 +51,9 @@ def family(name, k, root):
         return {'k': 'chain', 'flavour': 'chain', 'layers': [src] + [crop(j) for j in range(k)] + [{'k': 'ram', 'names': ['image'], 'size': None}]}, 'image', 'i1'
     if name == 'diamond-disk':
         return {'k': 'chain', 'flavour': 'chain', 'layers': [src] + [crop(j) for j in range(k)] + [{'k': 'disk', 'names': ['image'], 'root': 0}]}, 'image', 'i1'
+    if name == 'diamond-columns':
+        # the two-phase form (get_hash, then get_value from its state) CacheColumns uses while it generates a shard
+        return {'k': 'chain', 'flavour': 'chain', 'layers': [src] + [crop(j) for j in range(k)] + [{'k': 'columns', 'names': ['image'], 'root': 0, 'shard': None}]}, 'image', 'i1'
     if name == 'diamond-meta':
         # the diamond pattern over a field that does not depend on the key
         return {'k': 'chain', 'flavour': 'chain', 'layers': [src] + [crop(j, 'ids') for j in range(k)]}, 'ids', None
@@ -87,7 +90,7 @@ def family(name, k, root):
 
 
 NOCALL = {'stack-groupby-ram'}      # the symbolic grouping function does not return ids: construction and compilation only
-FAMILIES = ['stack-groupby-ram', 'stack-filter-disk', 'diamond', 'diamond-ram', 'diamond-disk', 'diamond-disk-debuglog', 'diamond-meta', 'diamond-filter', 'diamond-groupby', 'diamond-const-groupby', 'chain', 'fanin']
+FAMILIES = ['stack-groupby-ram', 'stack-filter-disk', 'diamond-columns', 'diamond', 'diamond-ram', 'diamond-disk', 'diamond-disk-debuglog', 'diamond-meta', 'diamond-filter', 'diamond-groupby', 'diamond-const-groupby', 'chain', 'fanin']
 
 
 def measure_family(name, sizes, call_cached=True):
